@@ -229,3 +229,7 @@ impl<T: DataType> Encoder<T> for VariableWidthByteStreamSplitEncoder<T> {
         self.buffer.capacity() * std::mem::size_of::<u8>()
     }
 }
+
+#[cfg(kani)]
+#[path = "/verif/kani/parquet/encodings/encoding/byte_stream_split_encoder.rs"]
+mod verif_kani;
